@@ -449,6 +449,57 @@ pub fn builder_footer_changes(pools: &Pools, r: &mut Report) {
     }
 }
 
+/// ONE builder whose implicit assertion is changed between builds (incl. back to the empty one): every token must be
+/// bound to the assertion in force at its build, and to no other
+pub fn builder_assertion_changes(pools: &Pools, r: &mut Report) {
+    for &p in &[P::V3L, P::V4L, P::V3P, P::V4P] {
+        let key = pools.key(p, 0);
+        let plan: [&str; 5] = ["first-assertion", "", "second-assertion", " ", ""];
+        for layer in [Layer::Generic, Layer::Batteries] {
+            let toks: Vec<Out<String>> = if layer == Layer::Generic {
+                let mut ops = vec![GOp::Set(Claim::Custom("data".into(), json!("assertion changes"))), GOp::Set(Claim::Exp("2999-01-01T00:00:00+00:00".into()))];
+                for a in plan {
+                    ops.push(GOp::Assertion(a.to_string()));
+                    ops.push(GOp::Build);
+                }
+                generic_run(p, &key, &ops)
+            } else {
+                let mut ops = vec![BOp::Set(Claim::Custom("data".into(), json!("assertion changes")))];
+                for a in plan {
+                    ops.push(BOp::Assertion(a.to_string()));
+                    ops.push(BOp::Build);
+                }
+                batteries_run(p, &key, &ops)
+            };
+            for (n, (t, a)) in toks.iter().zip(plan).enumerate() {
+                r.evaluations += 1;
+                let tag = format!("{}/{}", p.name(), layer.name());
+                let replay = json!({"cmd": "C06-reuse", "note": "builder assertion-change case: re-run the check", "p": p.name(), "layer": layer.name(), "build_no": n + 1});
+                let tok = match t {
+                    Out::Ok(t) => t,
+                    o => {
+                        r.violation(format!("C06 builder-assertion-change build-failed {}", tag), format!("{}: build #{} failed: {}", tag, n + 1, o.brief()), replay);
+                        continue;
+                    }
+                };
+                let want = if a.is_empty() { None } else { Some(a) };
+                let opens = open_any(layer, p, &key, tok, None, want).is_ok();
+                let others: Vec<&str> = plan.iter().copied().filter(|x| *x != a).filter(|x| open_any(layer, p, &key, tok, None, if x.is_empty() { None } else { Some(x) }).is_ok()).collect();
+                if !opens || !others.is_empty() {
+                    r.violation(
+                        format!("C06 builder-assertion-change {} build={}", tag, n + 1),
+                        format!("{}: ONE builder, set_implicit_assertion({:?}) then build #{}: opens with that assertion = {}, also opens with {:?}", tag, a, n + 1, opens, others),
+                        replay,
+                    );
+                } else {
+                    r.count(&format!("{} builder assertion changed: token #{} is bound to the assertion in force", tag, n + 1));
+                    r.distinct(format!("{}|assertion-change|{}", tag, n));
+                }
+            }
+        }
+    }
+}
+
 /// builders used more than once: every token must carry the footer / be bound to the assertion that was set
 pub fn builder_reuse(prop: &str, pools: &Pools, r: &mut Report) {
     let protos: Vec<P> = if prop == "C06" { vec![P::V3L, P::V4L, P::V3P, P::V4P] } else { ALL.to_vec() };
@@ -942,7 +993,16 @@ pub fn run_c05(tier: &str, seed: u64) -> Report {
         } else if fb.is_empty() {
             // footer-less token: adding a footer segment with a matching expectation must fail
             let tok = format!("{}.{}", token.trim_end_matches('.'), util::b64(b"added"));
-            let c = C05Case { p, layer, key: key.clone(), built_footer: f.clone(), supplied_footer: Some("added".into()), ia: ia.map(|s| s.to_string()), token: tok, class: "footer-segment-added+matching-expectation".into() };
+            let c = C05Case { p, layer, key: key.clone(), built_footer: f.clone(), supplied_footer: Some("added".into()), ia: ia.map(|s| s.to_string()), token: tok.clone(), class: "footer-segment-added+matching-expectation".into() };
+            c05_eval(&c, r);
+            // ... and with NO expectation (a literal None at the core layer) or the empty one: the token now carries a footer
+            // that was never authenticated and that the caller does not expect
+            for (sup, class) in [(None, "footer-segment-added+none-expected"), (Some(String::new()), "footer-segment-added+empty-expected")] {
+                let c = C05Case { p, layer, key: key.clone(), built_footer: f.clone(), supplied_footer: sup, ia: ia.map(|s| s.to_string()), token: tok.clone(), class: class.into() };
+                c05_eval(&c, r);
+            }
+            let tok2 = format!("{}.{}", token.trim_end_matches('.'), util::b64(b"{\"kid\":\"attacker\"}"));
+            let c = C05Case { p, layer, key: key.clone(), built_footer: f.clone(), supplied_footer: None, ia: ia.map(|s| s.to_string()), token: tok2, class: "footer-segment-added+none-expected".into() };
             c05_eval(&c, r);
         }
     });
@@ -1016,7 +1076,7 @@ pub fn replay_c05(case: &Value) -> Report {
     r
 }
 
-pub const RULE_C05: &str = "8 protocols x 3 layers x footer catalogue (none, empty, 40 strings + 20 (thorough 300) seeded random ones; incl. prefix/extension pairs, case and whitespace variants, NUL suffix, NFC/NFD, strings whose base64 differs in the last character, strings that are themselves base64 or contain dots): a token is built with each footer F through that layer's builder and presented to that layer's parser with every expected footer F' of the catalogue; oracle: accept iff F' == F with none == empty (string equality in the harness). Plus a footer LENGTH sweep (every length 0..=130, 255..257, 65535..65537: built, opened with the same footer, its one-byte-shorter prefix and its one-byte extension). Plus parser sessions (the expected footer is changed between parses of one parser object) and 160 (thorough 2000) NESTED pairs of them (a second parser object is created, used and dropped in the middle of another one's session on the same thread; both must answer as alone). Plus the footer segment of every produced token compared with the harness's own base64url encoder, and edits of the segment (removed, emptied, replaced with and without matching expectation, extended, truncated, raw text, added to a footer-less token). distinct_nontrivial = distinct (protocol, layer, built class, supplied class) for accepted pairs and (protocol, layer, case class, rejection variant) for rejected ones";
+pub const RULE_C05: &str = "8 protocols x 3 layers x footer catalogue (none, empty, 40 strings + 20 (thorough 300) seeded random ones; incl. prefix/extension pairs, case and whitespace variants, NUL suffix, NFC/NFD, strings whose base64 differs in the last character, strings that are themselves base64 or contain dots): a token is built with each footer F through that layer's builder and presented to that layer's parser with every expected footer F' of the catalogue; oracle: accept iff F' == F with none == empty (string equality in the harness). Plus a footer LENGTH sweep (every length 0..=130, 255..257, 65535..65537: built, opened with the same footer, its one-byte-shorter prefix and its one-byte extension). Plus parser sessions (the expected footer is changed between parses of one parser object) and 160 (thorough 2000) NESTED pairs of them (a second parser object is created, used and dropped in the middle of another one's session on the same thread; both must answer as alone). Plus the footer segment of every produced token compared with the harness's own base64url encoder, and edits of the segment (removed, emptied, replaced with and without matching expectation, extended, truncated, raw text, added to a footer-less token with a matching, an empty and NO expectation). distinct_nontrivial = distinct (protocol, layer, built class, supplied class) for accepted pairs and (protocol, layer, case class, rejection variant) for rejected ones";
 
 // ==========================================================================================
 // C06
@@ -1294,6 +1354,7 @@ pub fn run_c06(tier: &str, seed: u64) -> Report {
     nested_pairs("C06", &cases, if thorough { 2000 } else { 160 }, seed, &mut rs);
     rs.require("nested parser pairs: both answer as alone", 60);
     builder_reuse("C06", &pools, &mut rs);
+    builder_assertion_changes(&pools, &mut rs);
     total.merge(rs);
     for &p in &protos {
         total.require(&format!("{}/generic session parses as expected", p.name()), 16);
@@ -1317,7 +1378,7 @@ pub fn replay_c06(case: &Value) -> Report {
     r
 }
 
-pub const RULE_C06: &str = "v3/v4 local/public x 3 layers x assertion catalogue (none, empty, 40 strings with near-miss pairs): a token is built with assertion A through that layer's builder and presented to that layer's parser with every A' of the catalogue; oracle: accept iff A' == A (none == empty). Plus an assertion LENGTH sweep (0..=130, 255..257, 65535..65537; same / one byte shorter / one byte longer). Plus parser sessions (assertion changed between parses) and 160 (thorough 2000) NESTED pairs of them (two parser objects alive at once on one thread); the assertion supplied as footer instead; for 60 (thorough 400) random assertions of >= 12 base64-alphabet characters per protocol with a FIXED nonce: token length equal for none / A / A', A (raw and base64url at the three byte alignments) absent from the token text and decoded payload, nonce||ciphertext identical across assertions (local), tokens differ across assertions; re-split attack (F,A)->(F',A') with F||A == F'||A' at six split points, and across a LENGTH PREFIX (F' = F || len(A) || A[..d-8], A' = A[d..] with A[d-8..d] = LE64(|A'|), d in {128, 256, 32768, 65536}, len(A) written as LE64(|A|) and as LE64(|A|-d): collides iff the PAE length encoding is not injective). distinct_nontrivial = distinct (protocol, layer, class, built class, supplied class)";
+pub const RULE_C06: &str = "v3/v4 local/public x 3 layers x assertion catalogue (none, empty, 40 strings with near-miss pairs): a token is built with assertion A through that layer's builder and presented to that layer's parser with every A' of the catalogue; oracle: accept iff A' == A (none == empty). Plus ONE builder whose assertion is changed between builds (A, empty, B, blank, empty): each token opens with the assertion in force and with no other. Plus an assertion LENGTH sweep (0..=130, 255..257, 65535..65537; same / one byte shorter / one byte longer). Plus parser sessions (assertion changed between parses) and 160 (thorough 2000) NESTED pairs of them (two parser objects alive at once on one thread); the assertion supplied as footer instead; for 60 (thorough 400) random assertions of >= 12 base64-alphabet characters per protocol with a FIXED nonce: token length equal for none / A / A', A (raw and base64url at the three byte alignments) absent from the token text and decoded payload, nonce||ciphertext identical across assertions (local), tokens differ across assertions; re-split attack (F,A)->(F',A') with F||A == F'||A' at six split points, and across a LENGTH PREFIX (F' = F || len(A) || A[..d-8], A' = A[d..] with A[d-8..d] = LE64(|A'|), d in {128, 256, 32768, 65536}, len(A) written as LE64(|A|) and as LE64(|A|-d): collides iff the PAE length encoding is not injective). distinct_nontrivial = distinct (protocol, layer, class, built class, supplied class)";
 
 // ==========================================================================================
 // C07
